@@ -29,6 +29,7 @@ func runC13(s *scn.Scenario, res *scn.Result) {
 		// ---- reference table, twice, every kind on its own fresh tree
 		ref := map[string]string{}
 		refCalls := map[string]int{}
+		refDigest := map[string]bool{} // the reference output is only known as length + hash
 		for _, k := range opKinds {
 			var outs [2]string
 			for rep := 0; rep < 2; rep++ {
@@ -40,6 +41,7 @@ func runC13(s *scn.Scenario, res *scn.Result) {
 				}
 				r := doOp(k, p.root, len(in.Src), nil)
 				refCalls[k] = r.calls
+				refDigest[k] = r.digest
 				outs[rep] = r.out
 			}
 			if outs[0] != outs[1] {
@@ -121,7 +123,11 @@ func runC13(s *scn.Scenario, res *scn.Result) {
 					zzsim.AddProbe(probeVisitorAbort, 1)
 				}
 				// narrow relaxation: only the bytes accepted before the fault are judged
-				if r.prefix > len(want) || r.out[:r.prefix] != want[:r.prefix] {
+				// (not judged at all when the reference is too large to be kept as
+				// bytes; the tree check below still applies)
+				if refDigest[op.Kind] || r.digest {
+					res.Probes["faulted_output_not_judged_reference_too_large"]++
+				} else if r.prefix > len(want) || r.out[:r.prefix] != want[:r.prefix] {
 					add("H1-output-equals-fresh", "faulted-prefix:"+op.Kind, "op "+strconv.Itoa(i)+" ("+op.Kind+when+"): bytes accepted before the fault are not a prefix of the fresh-tree output: "+firstDiff(r.out[:r.prefix], want))
 					break
 				}
